@@ -357,7 +357,7 @@ func (c *collector) violate(sig, msg string) {
 }
 
 func (c *collector) count(name string, n int64) { c.counters[name] += n }
-func (c *collector) outcome(o string)            { c.outcomes[o]++ }
+func (c *collector) outcome(o string)           { c.outcomes[o]++ }
 func (c *collector) class(k string) {
 	if len(c.classes) < 4096 {
 		c.classes[k] = struct{}{}
